@@ -46,9 +46,11 @@ Definition init (c : cfg) : st :=
 
 Inductive op :=
 | Load (name : str) (ns : option str) (g : N) (async : bool) (via : bool)
-    (* via = true: the template is loaded from inside a render (include / render /
-       extends pass the active render context): the caller's globals are those of
-       the including template, and a cache hit does not re-bind the cached object *)
+    (* via = true: the template is loaded with a render context (include / render /
+       extends pass the active one and no globals, g = 0; a user may call
+       get_template(name, globals, context) directly): the caller is served the
+       template bound to its own globals g, and a cache hit does not re-bind the
+       cached object *)
 | Modify (key : str) (content : N)
 | Delete (key : str)
 | FailNext.
@@ -132,9 +134,11 @@ Definition cached_load (c : cfg) (s : st) (name : str) (ns : option str)
 Definition step (c : cfg) (s : st) (o : op) : obs * st :=
   match o with
   | Load name ns g async via =>
-      (* a partial renders in the including template's context: its own bound
-         globals are not observed (0), and are not re-bound on a hit *)
-      cached_load c s name ns (if via then 0%N else g) async (negb via)
+      (* a load made with a render context (include / render / extends, or a
+         direct get_template(..., context=...)): the caller is served the
+         template bound to its own globals, and the cached object is not
+         re-bound on a hit (tags pass no globals of their own: g = 0) *)
+      cached_load c s name ns g async (negb via)
   | Modify k content =>
       (Quiet, {| cache := cache s;
                  store := dict_set k (content, next_ver s) (store s);
@@ -170,8 +174,7 @@ Fixpoint final (c : cfg) (s : st) (ops : list op) : st :=
     with. *)
 Definition uncached_step (c : cfg) (s : st) (o : op) : obs * st :=
   match o with
-  | Load name ns g0 async via =>
-      let g := if via then 0%N else g0 in
+  | Load name ns g async via =>
       match uncached_load c s name ns g async with
       | (Some t, fn) => (Loaded (t_content t) (t_globals t), with_cache s (cache s) fn)
       | (None, fn) => (NotFound, with_cache s (cache s) fn)
